@@ -479,3 +479,15 @@ Proof.
     destruct (Z.to_N base =? 10)%N; destruct (x <? 0); reflexivity. }
   rewrite Hren. destruct (x <? 0) eqn:Ex; cbn [app tl hd]; (split; [intros; try reflexivity; lia|]); auto.
 Qed.
+
+Lemma fmtint_exact_inrange :
+  forall (buf : list N) (k : ikind) (x : Z) (base pad : Z),
+    length buf = N.to_nat kfmt_numFmtBufLen -> base = 8 \/ base = 10 \/ base = 16 -> in_range k x ->
+    exists buf', length buf' = length buf /\
+      fmt_int buf (AInt k x) base pad = Ok ([render_int (Z.to_N base) (Z.to_N pad) (x <? 0) (Z.abs_N x)], buf').
+Proof.
+  intros buf k x base pad Hl Hb Hr.
+  destruct (fmt_int_exact buf k x base pad Hl Hb) as [buf' [Hl' E]].
+  destruct (model_in_range k x Hr) as [E1 E2]. rewrite E1, E2 in E.
+  exists buf'. split; [rewrite Hl', Hl; reflexivity | exact E].
+Qed.
